@@ -707,6 +707,8 @@ class Engine:
         small_used = False
         mu = z3.RealVal("1/97")  # (not a round number: models built from it are not 2-decimal or integral by accident) above the tolerance of the concrete comparisons (1e-7 + 1e-6 |x|) for |x| <= 1000
         for key, mask in self.facts.items():
+            if p_integral(dict(key)):
+                continue  # integer-valued comparisons are exact in doubles: no margin (a margin would only exclude end points)
             t = to_z3(dict(key))
             if mask in (3, 6):
                 strict.append(t != 0)
